@@ -19,7 +19,11 @@ RULE = ('native grids: linear / log / constant-R (repo create_grid_res) with mid
         'and/or spectrum as int64, widths fractional floats); a reuse stream applies ONE FluxBinner / SimpleBinner / '
         'NativeBinner instance to 2-3 different native grids of equal length in sequence (mid-point and explicit '
         'widths, 1-D/2-D, errors, bindown and bin_model), each result judged for its own grid and against a fresh '
-        'binner')
+        'binner; an observation-route stream: the binner is NOT handed its grid but created from the rows of a file '
+        '(ArraySpectrum 3/4 columns, ObservedSpectrum text file 3/4 columns, TaurexSpectrum HDF5 instrument section, '
+        'InstrumentFile wavelength/noise/width) with rows in descending / ascending / shuffled wavelength order, unequal '
+        'widths, gaps, broad (R 2-10) channels; judged against Binning.fluxBindown on ObsTargets.routeTargets and against '
+        'the overlap-weighted mean over the bins the rows declare')
 ASSUMPTIONS = ['np.searchsorted(a, v, side="right") on a sorted array = number of elements <= v',
                'argsort = stable insertion sort by key (theorems on order need distinct wavenumbers)',
                'np.histogram(x, edges[, weights]) = per-bin count/sum with bins [e_i, e_i+1) and a closed last bin; '
@@ -34,6 +38,12 @@ ASSUMPTIONS = ['np.searchsorted(a, v, side="right") on a sorted array = number o
                'below the point: numpy evaluates it as searchsorted(edges, x, side="left") for increasing edges); the N-D '
                'path of util.bindown is translated for one row of a 2-D array (leading axis lifted, lifted_ndim=2); '
                'x.mean() = sum / (sum of ones)']
+
+ASSUMPTIONS += ['observation route: a file row (wavelength, ..., wavelength width) declares the wavenumber bin centre 10000/wl, '
+                'width 10000*w/wl^2 (wnwidth_to_wlwidth, the conversion at the bin centre that the package documents and '
+                'C16 states); a TauREx output file declares (instrument_wngrid, instrument_wnwidth) directly; a 3-column '
+                'observation declares the mid-point widths of its wavelength grid; np.loadtxt / np.savetxt / h5py are '
+                'containers (doubles round-trip exactly)']
 
 REL = 1e-10
 
@@ -787,7 +797,261 @@ def eval_edges(ctx, g, as_int=False):
                           dict(edges=e))
 
 
+# ----------------------------------------------------------------------------------------------- observation route
+OBS_ROUTES = ['array4', 'array3', 'observed-file4', 'taurex-hdf5', 'instrument-file', 'observed-file3']
+OBS_ORDERS = ['descending', 'ascending', 'shuffled', 'shuffled']
+ROUTE_CODE = {'array3': 0, 'observed-file3': 0, 'array4': 1, 'observed-file4': 1, 'taurex-hdf5': 2, 'instrument-file': 3}
+_SCRATCH = [None]
+
+
+def scratch_dir():
+    import tempfile
+    if _SCRATCH[0] is None:
+        _SCRATCH[0] = tempfile.mkdtemp(prefix='verif_c05_')
+    return _SCRATCH[0]
+
+
+def scratch_close():
+    import shutil
+    if _SCRATCH[0] is not None:
+        shutil.rmtree(_SCRATCH[0], ignore_errors=True)
+        _SCRATCH[0] = None
+
+
+def gen_obs_case(rng, k):
+    """a binner whose target grid comes from the ROWS OF A FILE.  The bins are drawn in wavenumber like any other target
+    grid (gen_targets: inside / narrower / wider / straddling / outside / in a gap / covering), plus broad photometric
+    channels (width / centre 0.1 .. 0.5); they are written as file rows in the route's own units, in descending
+    (the layout TauREx writes), ascending or shuffled wavelength order."""
+    route = OBS_ROUTES[k % len(OBS_ROUTES)]
+    order = OBS_ORDERS[(k // len(OBS_ROUTES)) % len(OBS_ORDERS)]
+    base = gen_case(rng, k)
+    nc = np.asarray(base['nc'], float)
+    nw = None if base['nw'] is None else np.asarray(base['nw'], float)
+    o = np.argsort(nc)
+    tg = gen_targets(rng, nc[o], None if nw is None else nw[o], int(rng.integers(2, 13)))
+    tc = np.array([t[0] for t in tg])
+    tw = np.array([t[1] for t in tg])
+    tkinds = [t[2] for t in tg]
+    lo, hi = float(nc.min()), float(nc.max())
+    for j in range(len(tc)):
+        if rng.random() < 0.25:        # a broad channel inside the native range
+            tc[j] = rng.uniform(lo, hi)
+            tw[j] = tc[j] * rng.uniform(0.1, 0.5)
+            tkinds[j] = 'broad'
+    keep = (tc - tw / 2 > 1.0) & (tw > 0)
+    _, first = np.unique(np.round(tc, 9), return_index=True)
+    keep[np.setdiff1d(np.arange(len(tc)), first)] = False
+    tc, tw, tkinds = tc[keep], tw[keep], [tkinds[i] for i in np.flatnonzero(keep)]
+    if len(tc) < 2:
+        tc = np.array([lo + 0.3 * (hi - lo), lo + 0.7 * (hi - lo)])
+        tw = np.array([0.1, 0.25]) * (hi - lo)
+        tkinds = ['inside', 'inside']
+    m = len(tc)
+    # file order: by wavelength = 10000/wavenumber
+    desc_wl = np.argsort(tc, kind='stable')                # ascending wavenumber = descending wavelength
+    perm = {'descending': desc_wl, 'ascending': desc_wl[::-1], 'shuffled': rng.permutation(m)}[order]
+    if order == 'shuffled' and np.array_equal(perm, desc_wl):
+        perm = np.roll(perm, 1)
+    tc, tw, tkinds = tc[perm], tw[perm], [tkinds[i] for i in perm]
+    value = rng.uniform(0.001, 0.03, size=m)
+    noise = 10 ** rng.uniform(-5, -3, size=m)
+    if route == 'taurex-hdf5':
+        rows = np.column_stack([tc, value, noise, tw])                       # (wn, spectrum, noise, wn width)
+    else:
+        wl = 10000.0 / tc
+        rows = np.column_stack([wl, value, noise, tw * wl * wl / 10000.0])   # (wl, value, error, wl width)
+    if route in ('array3', 'observed-file3'):
+        rows = rows[:, :3]
+    return dict(obs=True, route=route, order=order, rows=rows, tkinds=tkinds, nkind=base['nkind'], nd=base['nd'],
+                nc=base['nc'], nw=base['nw'], spec=base['spec'], err=base['err'], scalar_native=False,
+                shuffled=[base['shuffled'][0], order != 'descending'])
+
+
+def declared_bins(route, rows):
+    """the wavenumber bins the file rows declare (numpy, independent of the package), ascending in wavenumber"""
+    rows = np.asarray(rows, float)
+    if route == 'taurex-hdf5':
+        c, w = rows[:, 0], rows[:, 3]
+    else:
+        wl = rows[:, 0]
+        if rows.shape[1] >= 4:
+            ww = rows[:, 3]
+        else:
+            s = np.sort(wl)[::-1]
+            edges = np.concatenate([[s[0] - (s[1] - s[0]) / 2], (s[:-1] + s[1:]) / 2, [s[-1] + (s[-1] - s[-2]) / 2]])
+            wmid = np.abs(np.diff(edges))
+            ww = np.empty_like(wl)
+            ww[np.argsort(wl)[::-1]] = wmid
+        c, w = 10000.0 / wl, 10000.0 * ww / (wl * wl)
+    o = np.argsort(c, kind='stable')
+    return c[o], w[o]
+
+
+def obs_binner(c):
+    """the real objects: returns (callable native -> (grid, binned, error, widths), extra)"""
+    import os
+    route, rows = c['route'], np.asarray(c['rows'], float)
+    if route in ('array3', 'array4'):
+        from taurex.data.spectrum.array import ArraySpectrum
+        return ArraySpectrum(rows.copy()).create_binner(), None
+    d = scratch_dir()
+    if route in ('observed-file3', 'observed-file4'):
+        from taurex.data.spectrum.observed import ObservedSpectrum
+        fn = os.path.join(d, 'obs.dat')
+        np.savetxt(fn, rows)
+        return ObservedSpectrum(fn).create_binner(), None
+    if route == 'taurex-hdf5':
+        import h5py
+        from taurex.data.spectrum.taurex import TaurexSpectrum
+        fn = os.path.join(d, 'taurex_out.h5')
+        with h5py.File(fn, 'w') as f:
+            g = f.create_group('Output').create_group('Spectra')
+            for nm, col in (('instrument_wngrid', 0), ('instrument_spectrum', 1), ('instrument_noise', 2),
+                            ('instrument_wnwidth', 3)):
+                g.create_dataset(nm, data=rows[:, col])
+        return TaurexSpectrum(fn).create_binner(), None
+    from taurex.instruments.instrumentfile import InstrumentFile
+    fn = os.path.join(d, 'instrument.dat')
+    np.savetxt(fn, rows[:, [0, 2, 3]])                     # wavelength, noise, wavelength width
+    inst = InstrumentFile(fn)
+    return None, inst
+
+
+def eval_obs(ctx, c):
+    route, order = c['route'], c['order']
+    rows = np.asarray(c['rows'], float)
+    nc = np.asarray(c['nc'], float)
+    nw = None if c['nw'] is None else np.asarray(c['nw'], float)
+    spec = np.asarray(c['spec'], float)
+    err = None if c['err'] is None else np.asarray(c['err'], float)
+    full = dict(c)
+    inst_noise = None
+    try:
+        binner, inst = obs_binner(c)
+        if inst is not None:
+            # the instrument's public entry point: model_noise(model, model_res) bins the model result
+            spec1 = as2d(spec)[0]
+            g, binned, inst_noise, gw = inst.model_noise(None, model_res=(nc, spec1, None, None))
+            spec, err, nw = spec1, None, None
+            berr = None
+        else:
+            g, binned, berr, gw = binner.bindown(nc, spec, grid_width=nw, error=err)
+    except Exception as e:
+        ctx.violation('observation-route-raises:' + route, 'building / using the binner of an observation raised %r' % (e,),
+                      full)
+        return
+    g, gw = np.asarray(g, float), np.asarray(gw, float)
+    spec2, err2 = as2d(spec), (None if err is None else as2d(err))
+    binned2 = as2d(binned)
+    berr2 = None if berr is None else as2d(berr)
+    scale = float(np.max(np.abs(spec2))) if spec2.size else 1.0
+    escale = 0.0 if err2 is None else float(np.max(np.abs(err2)))
+    # ---- model: the target bins of the route (ObsTargets.routeTargets), then Binning.fluxBindown on them
+    rows4 = np.zeros((len(rows), 4))
+    rows4[:, :rows.shape[1]] = rows
+    d = ctx.model().call('c05.obs', C.N(ROUTE_CODE[route]), C.LL(rows4.tolist()))
+    mg, mw, mnoise = np.array(d.list()), np.array(d.list()), np.array(d.list())
+    ctx.check_close('observation route: binner grid vs ObsTargets.routeTargets', g, mg, full, rel=1e-13)
+    ctx.check_close('observation route: binner widths vs ObsTargets.routeTargets', gw, mw, full, rel=1e-11)
+    if inst_noise is not None:
+        ctx.check_close('InstrumentFile.model_noise noise vs ObsTargets.instrumentNoise', np.asarray(inst_noise, float),
+                        mnoise, full, rel=0, abs_=0)
+    d = ctx.model().call('c05.flux', C.N(0 if nw is None else 1), C.L(nc), C.L([] if nw is None else nw),
+                         C.LL(spec2.tolist()), C.LL([] if err2 is None else err2.tolist()), C.N(2), C.L(mg), C.L(mw))
+    d.list(), d.list()
+    mb = [np.array(x) for x in d.list(d.list)]
+    me = [np.array(x) for x in d.list(d.list)]
+    m_ordered = d.bool()
+    # ---- the guard on the native grid (as in eval_flux) and on the declared bins
+    from taurex.util.util import compute_bin_edges
+    o = np.argsort(nc, kind='stable')
+    snc = nc[o]
+    snw = compute_bin_edges(snc)[-1] if nw is None else nw[o]
+    lo, hi = snc - snw / 2, snc + snw / 2
+    ordered = bool(np.all(np.diff(lo) >= 0) and np.all(np.diff(hi) >= 0))
+    ctx.check_eq('ordered-bins guard (numpy vs model)', ordered, m_ordered, full)
+    dc, dw = declared_bins(route, rows)
+    judged = ordered and bool(np.all(np.diff(snc) > 0)) and bool(np.all(snw > 0)) and bool(np.all(dw > 0)) \
+        and bool(np.all(np.diff(dc) > 0))
+    if ordered and binned2.shape[1] == len(mg):
+        for i in range(spec2.shape[0]):
+            ctx.check_close('observation route: bindown spectrum vs fluxBindown on routeTargets', binned2[i], mb[i], full,
+                            rel=REL, abs_=1e-12 * scale)
+        if err2 is not None and berr2 is not None:
+            for i in range(err2.shape[0]):
+                ctx.check_close('observation route: bindown error vs fluxBindownErr on routeTargets', berr2[i], me[i], full,
+                                rel=REL, abs_=1e-12 * escale)
+    nontrivial = bool(spec2.max() > spec2.min())
+    unequal = bool(len(dw) > 1 and (dw.max() - dw.min()) > 1e-6 * dw.max())
+    ctx.case(key=('obs', route, order, c['nkind'], c['nd'], err is not None, nw is not None) if (nontrivial and judged)
+             else None, sample=dict(route=route, order=order, rows=rows[:2], grid=g[:3], impl=binned2[0][:3]),
+             bucket='obs-route:' + route)
+    ctx.bucket('obs-route:%s:%s-rows' % (route, order))
+    ctx.bucket('obs-route:widths-' + ('unequal' if unequal else 'equal'))
+    if not judged:
+        ctx.malformed_outcome('obs-route:native-grid-outside-guard')
+        return
+    # ---- the property on the real code: the binner's bins are the bins the file declares, and every bin that overlaps
+    # the native grid holds the overlap-weighted mean over THAT bin
+    if len(g) != len(dc) or not C.close(g, dc, rel=1e-12) or not C.close(gw, dw, rel=1e-9):
+        ctx.violation('observation-bins:' + route, 'the binner created from the file does not hold the bins the rows of the '
+                      'file declare (centre with the width of its own row)', full,
+                      dict(grid=g, widths=gw, declared_centres=dc, declared_widths=dw))
+    sspec2 = spec2[:, o]
+    serr2 = None if err2 is None else err2[:, o]
+    for j in range(min(len(dc), binned2.shape[1])):
+        a, b = dc[j] - dw[j] / 2, dc[j] + dw[j] / 2
+        ov, S, val, q = oracle(lo, hi, sspec2, serr2, a, b)
+        # the bins are re-derived here from the file (not read back from the binner): an edge that coincides with a native
+        # edge up to rounding (overlap, or distance from the native range, below 1e-9 of the bin width) is decided by the
+        # last bit of the unit conversion - a tie the property does not resolve: counted, not judged
+        tie = 1e-9 * (b - a)
+        if 0 < S <= tie or (S == 0 and min(abs(a - hi.max()), abs(b - lo.min())) <= tie):
+            ctx.bucket('obs-route:bins:edge-tie(not judged)')
+            continue
+        if S > 0:
+            ctx.bucket('obs-route:bins:overlapping')
+            if not C.close(binned2[:, j], val, rel=1e-9, abs_=1e-12 * scale):
+                ctx.violation('not-overlap-mean:observation-route:' + route, 'the value binned onto an observation bin differs '
+                              'from the overlap-weighted mean of the native bins over the bin the file declares', full,
+                              dict(bin=j, a=a, b=b, impl=binned2[:, j], spec=val))
+                break
+            if serr2 is not None and berr2 is not None and not C.close(berr2[:, j], q, rel=1e-9, abs_=1e-12 * escale):
+                ctx.violation('error-not-quadrature:observation-route:' + route, 'binned error differs from '
+                              'sqrt(sum w^2 e^2)/sum w over the bin the file declares', full,
+                              dict(bin=j, impl=berr2[:, j], spec=q))
+                break
+        elif b < lo.min() or a > hi.max():
+            ctx.bucket('obs-route:bins:outside')
+            if not np.all(binned2[:, j] == 0.0):
+                ctx.violation('zero-overlap-bin-value:observation-route:' + route, 'an observation bin strictly outside the '
+                              'native range must come out as 0', full, dict(bin=j, a=a, b=b, impl=binned2[:, j]))
+                break
+
+
+def obs_malformed(ctx):
+    """outside the quantifier: an instrument file without a width column (the code's fallback is rejected), a one-row file"""
+    import os
+    from taurex.instruments.instrumentfile import InstrumentFile
+    fn = os.path.join(scratch_dir(), 'instrument2.dat')
+    np.savetxt(fn, np.array([[1.0, 1e-4], [2.0, 1e-4], [3.0, 2e-4]]))
+    try:
+        InstrumentFile(fn)
+        ctx.malformed_outcome('instrument-file-2-columns:accepted')
+    except Exception as e:
+        ctx.malformed_outcome('instrument-file-2-columns:' + type(e).__name__)
+    try:
+        from taurex.data.spectrum.array import ArraySpectrum
+        ArraySpectrum(np.array([[1.0, 0.01, 1e-4]])).create_binner()
+        ctx.malformed_outcome('observation-one-row-3-columns:accepted')
+    except Exception as e:
+        ctx.malformed_outcome('observation-one-row-3-columns:' + type(e).__name__)
+
+
 def eval_case(ctx, c):
+    if c.get('obs'):
+        return eval_obs(ctx, c)
     if c.get('hist'):
         return eval_hist(ctx, c)
     if c.get('edges_only'):
@@ -820,6 +1084,12 @@ def run(ctx):
         eval_case(ctx, c)
     for k in range(ctx.n(500, 8000)):
         eval_case(ctx, gen_reuse_case(rng, k))
+    try:
+        for k in range(ctx.n(600, 9000)):
+            eval_case(ctx, gen_obs_case(rng, k))
+        obs_malformed(ctx)
+    finally:
+        scratch_close()
     for k in range(ctx.n(300, 4000)):
         eval_case(ctx, gen_case(rng, k, malformed=True))
     for k in range(ctx.n(900, 15000)):
@@ -866,4 +1136,7 @@ def search(ctx):
 def replay(ctx, case):
     if isinstance(case.get('case'), dict):      # a replay file written by ./check wraps the input
         case = case['case']
-    eval_case(ctx, case)
+    try:
+        eval_case(ctx, case)
+    finally:
+        scratch_close()
